@@ -2,6 +2,8 @@ package c14
 
 import (
 	"bytes"
+	"context"
+	"github.com/cloudwego/hertz/pkg/app"
 
 	"fmt"
 	hserver "github.com/cloudwego/hertz/pkg/app/server"
@@ -32,7 +34,8 @@ func TestMain(m *testing.M) {
 // Program says how the handler consumes the body stream.
 type Program struct {
 	Sizes []int `json:"read_sizes"`
-	Stop  int   `json:"stop_after"` // bytes; -1 = read to EOF and once more
+	Stop  int   `json:"stop_after"`               // bytes; -1 = read to EOF and once more
+	Form  bool  `json:"multipart_form,omitempty"` // the handler does not read the stream itself: it calls ctx.MultipartForm()
 }
 
 type readLog struct {
@@ -53,6 +56,9 @@ var (
 func consume(r io.Reader) ([]byte, error) {
 	lg := curLog
 	p := curProg
+	if p.Form {
+		return nil, nil // the form was taken in beforeEcho
+	}
 	buf := make([]byte, 70000)
 	total := 0
 	for i := 0; ; i++ {
@@ -85,6 +91,12 @@ func consume(r io.Reader) ([]byte, error) {
 	return lg.data, nil
 }
 
+func beforeEcho(c context.Context, ctx *app.RequestContext) {
+	if curProg.Form && ctx.Request.IsBodyStream() {
+		ctx.MultipartForm() //nolint:errcheck
+	}
+}
+
 var servers = map[[2]int]*srv.Echo{}
 
 // maxBody: MaxRequestBodySize; in streaming mode it is not a limit but the size of the pre-read
@@ -97,7 +109,7 @@ func server(readBuf, maxBody int) *srv.Echo {
 	if s, ok := servers[k]; ok {
 		return s
 	}
-	s := srv.NewEcho(srv.Config{Stream: true, ReadBuf: readBuf, MaxBody: maxBody, ReadBody: consume})
+	s := srv.NewEcho(srv.Config{Stream: true, ReadBuf: readBuf, MaxBody: maxBody, ReadBody: consume, BeforeEcho: beforeEcho})
 	servers[k] = s
 	return s
 }
@@ -132,7 +144,7 @@ func netServer(transport string) (*srv.NetEcho, error) {
 	if s, ok := netServers[transport]; ok {
 		return s, nil
 	}
-	cfg := srv.Config{Stream: true, MaxBody: 8 << 20, ReadBody: consume}
+	cfg := srv.Config{Stream: true, MaxBody: 8 << 20, ReadBody: consume, BeforeEcho: beforeEcho}
 	tr := transport
 	if transport == "netpoll-idle0" {
 		// IdleTimeout 0: after every request the connection goes back to the poller instead of
@@ -210,6 +222,11 @@ func Check(c *Case) string {
 		lg.data, lg.err = obs[0].Body, io.EOF
 		lg.extraErr = io.EOF
 	}
+	// (a handler that lets the framework read the form - ctx.MultipartForm() - does not see the bytes:
+	// only what follows on the connection is checked then)
+	if c.Prog.Form {
+		goto whatFollows
+	}
 	// 1. prefix / EOF
 	if !bytes.HasPrefix(body, lg.data) {
 		d := 0
@@ -249,6 +266,7 @@ func Check(c *Case) string {
 			return fmt.Sprintf("peer closed after %d bytes of the message; stream reported err=%v after %d of %d body bytes instead of an error", c.Truncate, lg.err, len(lg.data), len(body))
 		}
 	}
+whatFollows:
 	// 3. what follows
 	methods := []string{c.Req.Method, "GET"}
 	rs, err := srv.Resps(res.Output, methods)
@@ -363,6 +381,9 @@ func chunkEnds(r *wire.Req) []int {
 
 func classify(c *Case) (bool, []string) {
 	cls := []string{"framing-" + c.Req.Framing.String()}
+	if c.Prog.Form {
+		cls = append(cls, "handler-calls-MultipartForm")
+	}
 	n := c.Req.BodyLen
 	ends := chunkEnds(c.Req)
 	inside := c.Prog.Stop > 0 && c.Prog.Stop < n
@@ -421,7 +442,28 @@ func TestC14Stream(t *testing.T) {
 			r.Body, r.BodyLen = nil, 0
 		}
 		c := &Case{Req: r, Truncate: -1, ReadBuf: rapid.SampledFrom([]int{4096, 4096, 1, 8192}).Draw(t, "readBuf"), MaxBody: rapid.SampledFrom([]int{0, 0, 16, 1000, 8192, 20000}).Draw(t, "maxRequestBodySize")}
+		multipartBody := false
+		if r.Framing == wire.FrChunked && rapid.IntRange(0, 5).Draw(t, "multipartBody") == 0 {
+			// a chunked multipart/form-data upload (reaches the handler as a stream), with an epilogue
+			multipartBody = true
+			val := string(gen.Body(rapid.SampledFrom([]int{0, 1, 100, 5000, 20000}).Draw(t, "fieldLen"), 0, 3, 0))
+			mp := "--b\r\nContent-Disposition: form-data; name=\"a\"\r\n\r\n" + val + "\r\n--b--\r\n" + strings.Repeat("e", rapid.SampledFrom([]int{0, 0, 10, 5000}).Draw(t, "epilogueLen"))
+			r.Body, r.BodyLen = []byte(mp), len(mp)
+			r.ChunkSizes = nil
+			for rest := len(mp); rest > 0; {
+				k := rapid.IntRange(1, rest).Draw(t, "mpChunk")
+				r.ChunkSizes = append(r.ChunkSizes, k)
+				rest -= k
+				if len(r.ChunkSizes) > 6 {
+					break
+				}
+			}
+			r.Lines = append(r.Lines, wire.KV{K: "Content-Type", V: "multipart/form-data; boundary=b"})
+		}
 		c.Prog = genProgram(t, r.BodyLen, chunkEnds(r))
+		if multipartBody && rapid.Bool().Draw(t, "handlerTakesForm") {
+			c.Prog.Form = true
+		}
 		c.Probe = rapid.IntRange(0, 4).Draw(t, "probe") > 0
 		var enc []byte
 		enc, m := r.Encode(enc)
